@@ -11,7 +11,7 @@ def m(name, prop, file, old, new, count=1):
 # ---- C04  (simple "forgot to zero X" mutants are killed by the existing test_reset tests; these are not)
 m("M02_ce_reset_forgets_max","C04",I+"chandelier_exit.rs","        self.min.reset();\n        self.max.reset();\n","        self.min.reset();\n")
 m("M03_er_reset_keeps_ring","C04",I+"efficiency_ratio.rs","        self.index = 0;\n        self.count = 0;\n        for i in 0..self.period {\n            self.deque[i] = 0.0;\n        }\n","        self.index = 0;\n        self.count = 0;\n")
-m("M04_mfi_reset_keeps_ring","C04",I+"money_flow_index.rs","        self.total_negative_money_flow = 0.0;\n        for i in 0..self.period {\n            self.deque[i] = 0.0;\n        }\n","        self.total_negative_money_flow = 0.0;\n")
+m("M04_mfi_reset_keeps_ring","C04",I+"money_flow_index.rs","        for i in 0..self.period {\n            self.deque[i] = 0.0;\n            self.positive[i] = true;\n        }\n","")
 m("M04b_sd_reset_keeps_mean","C04",I+"standard_deviation.rs","        self.count = 0;\n        self.m = 0.0;\n        self.m2 = 0.0;","        self.count = 0;\n        self.m2 = 0.0;")
 m("M04c_slowstoch_reset_forgets_ema","C04",I+"slow_stochastic.rs","        self.fast_stochastic.reset();\n        self.ema.reset();\n","        self.fast_stochastic.reset();\n")
 m("M04d_atr_reset_forgets_true_range","C04",I+"average_true_range.rs","        self.true_range.reset();\n        self.ema.reset();\n","        self.ema.reset();\n")
@@ -47,7 +47,7 @@ m("M17d_ema_normalise_loop_hangs_on_inf","C12",I+"exponential_moving_average.rs"
 # ---- C17
 m("M18_sma_subtracts_wrong_slot","C17",I+"simple_moving_average.rs","        let old_val = self.deque[self.index];\n        self.deque[self.index] = input;\n\n        self.index = if self.index + 1 < self.period {\n            self.index + 1\n        } else {\n            0\n        };\n","        self.deque[self.index] = input;\n\n        self.index = if self.index + 1 < self.period {\n            self.index + 1\n        } else {\n            0\n        };\n        let old_val = if self.count < self.period { 0.0 } else { self.deque[(self.index + 1) % self.period] };\n")
 m("M19_max_rescan_skips_last_slot","C17",I+"maximum.rs","        for (i, &val) in self.deque.iter().enumerate() {","        for (i, &val) in self.deque.iter().enumerate().take(self.period.max(2) - 1) {")
-m("M20_mfi_popped_sign","C17",I+"money_flow_index.rs","                self.total_negative_money_flow += popped;","                self.total_negative_money_flow -= popped;")
+m("M20_mfi_popped_sign","C17",I+"money_flow_index.rs","                self.total_negative_money_flow -= popped;","                self.total_negative_money_flow += popped;")
 m("M21_sd_lifetime_mean","C17",I+"standard_deviation.rs","            self.m += delta / self.period as f64;\n","            self.m += delta / (self.period as f64 + 1e-7);\n")
 # ---- C18
 m("M22_sma_keeps_history","C18",I+"simple_moving_average.rs","    sum: f64,\n    deque: Box<[f64]>,\n}","    sum: f64,\n    deque: Box<[f64]>,\n    history: Vec<f64>,\n}")
